@@ -23,6 +23,10 @@ MAX_VIOLATIONS_KEPT = 200
 MAX_SAMPLES = 6
 
 
+if __name__ == "__main__":  # checks import gsverif.run: make that the module that is executing them (one Inconclusive class)
+    sys.modules.setdefault("gsverif.run", sys.modules["__main__"])
+
+
 class Inconclusive(Exception):
     """Raised by a check when its monitor cannot decide (never a violation)."""
 
